@@ -481,6 +481,15 @@ func (m *objectCacheStorageMiddleware) CompleteMultipartUpload(ctx context.Conte
 	return result, nil
 }
 
+func (m *objectCacheStorageMiddleware) TransitionObjectStorageClass(ctx context.Context, bucketName storage.BucketName, key storage.ObjectKey, targetStorageClass string, opts *storage.TransitionObjectStorageClassOptions) error {
+	// The cached head carries StorageClass and LastModified, both of which a
+	// transition changes; invalidate even on error (like the tagging calls) so a
+	// partially applied transition can never be masked by a stale entry.
+	err := m.Next.TransitionObjectStorageClass(ctx, bucketName, key, targetStorageClass, opts)
+	m.invalidateObjectCaches(ctx, bucketName, key)
+	return err
+}
+
 func (m *objectCacheStorageMiddleware) invalidateObjectCaches(ctx context.Context, bucketName storage.BucketName, key storage.ObjectKey) {
 	objKey := objectCacheKey(bucketName, key)
 	if err := m.cache.Remove(objKey); err != nil {
